@@ -101,9 +101,11 @@ static void ares_llist_attach_at(ares_llist_t            *list,
       list->tail = node;
       break;
     case ARES__LLIST_INSERT_BEFORE:
-      node->next = at;
-      node->prev = at->prev;
-      at->prev   = node;
+      /* at is not the head here, so at->prev is not NULL */
+      node->next     = at;
+      node->prev     = at->prev;
+      at->prev->next = node;
+      at->prev       = node;
       break;
   }
   if (list->tail == NULL) {
